@@ -1,3 +1,142 @@
+/-
+  C03 — Named fields load correctly in any request order, with absent and unread fields.
+
+  PROPERTY THEOREMS ONLY (helpers: BSVerif/Scope/{Lemmas,Cursor}.lean).
+  Setting: an object of ANY size whose entries are ANY complete values (scalars, nested arrays,
+  nested objects — `Layout.WF`), embedded anywhere in a document (`pre`, `post` arbitrary), read
+  through the model of CMsgPackReadObjectScope over the token-level reader. Quantifiers: all
+  layouts, all cursor states satisfying the invariant, all keys (present, absent, repeated), all
+  target kinds, both mismatched-types policies, all request histories (unbounded length).
+-/
+import BSVerif.Scope.Cursor
 import BSVerif.Scope.Spec
+
 namespace BSVerif.Props.C03
+open BSVerif.Scope
+
+/-- the abstract answer to `SerializeValue(key, value of kind ty)` on the object `L` -/
+def AnswerOK (L : Layout) (mis : Mis) (q : Key × Ty) (a : Option Sc) : Prop :=
+  (∃ (m : Nat) (e : Key × List Tok), L.entries[m]? = some e ∧ e.1 = q.1 ∧ valueAnswer mis q.2 e.2 = .ok a) ∨
+  ((∀ m, keyAt L m ≠ some q.1) ∧ a = none)
+
+/-- the exception a request may raise: exactly the policy's exception for the value stored under that key -/
+def ErrorOK (L : Layout) (mis : Mis) (q : Key × Ty) (err : Err) : Prop :=
+  ∃ (m : Nat) (e : Key × List Tok), L.entries[m]? = some e ∧ e.1 = q.1 ∧ valueAnswer mis q.2 e.2 = .error err
+
+/-- **C03, one request.** From any cursor state satisfying the invariant, a request for any key and
+    kind returns exactly the value stored under that key (or "not loaded" for an absent key, a nil,
+    or a value skipped by policy; or the policy's exception), and re-establishes the invariant. -/
+theorem get_correct (L : Layout) (hwf : L.WF) (q : Key × Ty) (o : Obj) (r : Rd) (hinv : Inv L o r) :
+    match objGet q.1 q.2 o r with
+    | .ok (a, o', r') => AnswerOK L r.mis q a ∧ Inv L o' r' ∧ r'.mis = r.mis
+    | .error err => ErrorOK L r.mis q err := by
+  rcases objGet_spec L hwf q.1 q.2 o r hinv with ⟨m, e, he, hk, h⟩ | ⟨hno, o', r', h, hinv', hm⟩
+  · cases hva : valueAnswer r.mis q.2 e.2 with
+    | ok a =>
+      rw [hva] at h
+      obtain ⟨o', r', h1, h2, h3⟩ := h
+      rw [h1]
+      exact ⟨Or.inl ⟨m, e, he, hk, hva⟩, h2, h3⟩
+    | error err =>
+      rw [hva] at h
+      rw [h]
+      exact ⟨m, e, he, hk, hva⟩
+  · rw [h]
+    exact ⟨Or.inr ⟨hno, rfl⟩, hinv', hm⟩
+
+/-- pointwise relation between the requests and the answers of a history -/
+inductive Forall2 {α β : Type} (R : α → β → Prop) : List α → List β → Prop where
+  | nil : Forall2 R [] []
+  | cons {a b as bs} : R a b → Forall2 R as bs → Forall2 R (a :: as) (b :: bs)
+
+/-- a history of requests on one object scope -/
+def runGets : List (Key × Ty) → Obj → Rd → Except Err (List (Option Sc) × Obj × Rd)
+  | [], o, r => .ok ([], o, r)
+  | q :: qs, o, r =>
+    match objGet q.1 q.2 o r with
+    | .error e => .error e
+    | .ok (a, o', r') =>
+      match runGets qs o' r' with
+      | .error e => .error e
+      | .ok (as, o'', r'') => .ok (a :: as, o'', r'')
+
+/-- **C03, every history.** Any sequence of requests — any order, repeated keys, absent keys — gets,
+    request by request, exactly the abstract answers; if an exception is raised it is the policy's
+    exception for one of the requested fields. -/
+theorem history_correct (L : Layout) (hwf : L.WF) (qs : List (Key × Ty)) :
+    ∀ (o : Obj) (r : Rd), Inv L o r →
+    match runGets qs o r with
+    | .ok (as, o', r') => Forall2 (AnswerOK L r.mis) qs as ∧ Inv L o' r' ∧ r'.mis = r.mis
+    | .error err => ∃ q ∈ qs, ErrorOK L r.mis q err := by
+  induction qs with
+  | nil => intro o r h; exact ⟨Forall2.nil, h, rfl⟩
+  | cons q qs ih =>
+    intro o r hinv
+    have hg := get_correct L hwf q o r hinv
+    unfold runGets
+    cases hobj : objGet q.1 q.2 o r with
+    | error e => rw [hobj] at hg; exact ⟨q, by simp, hg⟩
+    | ok res =>
+      obtain ⟨a, o', r'⟩ := res
+      rw [hobj] at hg
+      obtain ⟨ha, hinv', hm⟩ := hg
+      have := ih o' r' hinv'
+      cases hr : runGets qs o' r' with
+      | error e =>
+        rw [hr] at this
+        obtain ⟨q', hq', he'⟩ := this
+        simp only [hr]
+        exact ⟨q', by simp [hq'], hm ▸ he'⟩
+      | ok res2 =>
+        obtain ⟨as, o'', r''⟩ := res2
+        rw [hr] at this
+        obtain ⟨h1, h2, h3⟩ := this
+        simp only [hr]
+        exact ⟨Forall2.cons ha (hm ▸ h1), h2, by rw [h3, hm]⟩
+
+/-- **C03, unread fields are skipped.** After ANY history, destroying the scope leaves the reader
+    exactly behind the object, so the data that follows it is read correctly. -/
+theorem close_after_any_history (L : Layout) (hwf : L.WF) (qs : List (Key × Ty)) (o : Obj) (r : Rd) (hinv : Inv L o r)
+    (as : List (Option Sc)) (o' : Obj) (r' : Rd) (hrun : runGets qs o r = .ok (as, o', r')) :
+    ∃ o'' r'', objClose o' r' = .ok (o'', r'') ∧ r''.pos = L.posOf L.size ∧ r''.rest = L.post := by
+  have h := history_correct L hwf qs o r hinv
+  rw [hrun] at h
+  obtain ⟨o'', r'', h1, h2, h3, _⟩ := objClose_spec L hwf o' r' h.2.1
+  refine ⟨o'', r'', h1, h2, ?_⟩
+  have hdoc : r''.doc = L.doc := by
+    obtain ⟨i, c, hat, _⟩ := h.2.1
+    rw [h3, hat.doc]
+  have := rest_at L r'' hdoc L.size h2
+  rw [this]
+  simp [Layout.size]
+
+/-- a freshly opened scope (`OpenObjectScope` right after the map header) satisfies the invariant -/
+theorem fresh_scope_inv (L : Layout) (r : Rd) (hdoc : r.doc = L.doc) (hpos : r.pos = L.posOf 0) :
+    Inv L ⟨r.pos, L.size, 0, none⟩ r := inv_init L r hdoc hpos
+
+/-! #### recorded finding, as a refutation: an array left partly read misplaces the parent -/
+
+/-- The full statement "whatever is left unread is skipped" fails for array scopes: witness
+    `{"a":[1,2,3],"b":5} 7`, open "a", read one element, close, request "b". -/
+theorem array_left_partly_read_refuted :
+    run (initSt [.map 2, .str [97], .arr 3, .int 1, .int 2, .int 3, .str [98], .int 5, .int 7] .skip)
+        [.openObj, .openArrK (.str [97]), .next .int, .close, .get (.str [98]) .int, .close, .next .int]
+      ≠ [.opened 2, .opened 3, .val (.int 1), .closed, .val (.int 5), .closed, .val (.int 7)] := by
+  decide
+
+/-! #### non-vacuity -/
+
+def exampleLayout : Layout := ⟨[.map 2], [(.str [97], [.arr 2, .int 1, .int 2]), (.int 5, [.str [120]])], [.int 7]⟩
+
+example : exampleLayout.WF := by
+  intro e he
+  simp [exampleLayout] at he
+  rcases he with rfl | rfl
+  · exact wfv_arr [[.int 1], [.int 2]] (by intro v hv; simp at hv; rcases hv with rfl | rfl <;> exact wfv_scalar _ rfl)
+  · exact wfv_scalar _ rfl
+
+example : (runGets [(.int 5, .str), (.str [97], .int), (.str [122], .int), (.int 5, .str)] ⟨1, 2, 0, none⟩
+    ⟨exampleLayout.doc, 1, .skip⟩).toOption.map (·.1) = some [some (.str [120]), none, none, some (.str [120])] := by
+  decide
+
 end BSVerif.Props.C03
